@@ -10,7 +10,7 @@ from . import common, machine
 from .common import HarnessError
 
 replay_one = machine.replay_one
-NOPS = 23
+NOPS = 26
 
 
 def sample(n_by_len):
@@ -30,7 +30,7 @@ def run(chk):
     lys = ("canon",)
     res = machine.tlc_family(chk, "FamMap", chk.tier, defines={"EXHLEN": exh, "SAMPLE": sample(smp)}, timeout=1500, layouts=lys)
     cases = machine.expand(res.cases, "map", layouts=lys)
-    chk.rule = ("histories of map operations (23 operations: insert/overwrite via . and [], del, lookup, and seven loops "
+    chk.rule = ("histories of map operations (26 operations: insert/overwrite via . and [], del, lookup, and ten loops "
                 "that mutate the map they iterate over, through the map m and its alias n) from three initial maps; "
                 "all histories up to length %d plus a seed-chosen sample of lengths %s; after every operation the map, len "
                 "and has of every key are printed; non-trivial = distinct program with >= 1 mutation" % (exh, sorted(smp)))
